@@ -75,6 +75,7 @@ def _install():
         ts = np.array([0.0, 1.0, 2.5])
         before = {
             "level": self.level,
+            "grid_type": type(self.grid).__name__,
             "axis": np.array(self.grid.axes[0], dtype=float, copy=True),
             "origin": int(self.grid.origin_coordinate.value),
             "h": float(self.grid.h),
@@ -245,6 +246,7 @@ def execute(wd, sc):
     frozen = []  # (level, path manager list, index, coarse deterministic path, fine deterministic path) at creation
     chain_drift = {}  # level -> (drift of the level-(l-1) chain, drift of the level-l chain)
     level_sigma = {}  # level -> (diffusion coefficient of the level-(l-1) chain, of the level-l chain)
+    pristine_grid = {"g": None}
 
     script_u = {"u": None}
 
@@ -274,6 +276,23 @@ def execute(wd, sc):
             add("C03.pre|refined grid does not hold the previous grid at even indices (precondition of the coupling)|" + cls,
                 {"level": lvl, "old_size": int(before["axis"].size), "new_size": int(axis.size), "origin": origin})
             return
+        # the grid of a level is of the kind the run was given, and the states inserted by the refinement are the cell
+        # boundaries of THAT kind of grid (a pristine grid object of the scenario's specification is the reference): the
+        # engines deep-copy the previous level's object before refining it
+        if pristine_grid["g"] is not None:
+            g0 = pristine_grid["g"]
+            if type(cp.grid).__name__ != type(g0).__name__ or before["grid_type"] != type(g0).__name__:
+                add("C03.pre|the grid of a level is not of the kind of grid the run was given (lost in a copy)|" + cls,
+                    {"level": lvl, "given": type(g0).__name__, "before_refinement": before["grid_type"], "after": type(cp.grid).__name__})
+            else:
+                old = before["axis"]
+                # (next to the origin the boundary is +-h/2 of the CURRENT step: not a function of the two states alone)
+                keep = np.array([a_ != 0.0 and b_ != 0.0 for a_, b_ in zip(old[:-1], old[1:])])
+                exp_new = np.array([float(g0.middle(float(a_), float(b_))) if k_ else np.nan
+                                    for a_, b_, k_ in zip(old[:-1], old[1:], keep)])
+                if not np.allclose(axis[1::2][keep], exp_new[keep], rtol=0.0, atol=1e-6):  # a probability-step boundary is a root found numerically
+                    add("C03.pre|states inserted by the refinement are not the cell boundaries of the kind of grid the run was given|" + cls,
+                        {"level": lvl, "inserted": axis[1::2].tolist()[:4], "expected": exp_new.tolist()[:4]})
         # ---- c: cross-level --------------------------------------------------------------------------------
         if abs(float(cp.equivalent_diffusion_coefficient_coarse) - before["sigma_fine"]) > 1e-15 * (1 + before["sigma_fine"]):
             add("C03.c|coarse diffusion coefficient is not the fine coefficient of the previous level|" + cls,
@@ -404,6 +423,10 @@ def execute(wd, sc):
             wd.probes["c03.sde_run"] += 1
         else:
             cp = B.build_process(sc["process"])
+            try:
+                pristine_grid["g"] = B.build_grid(sc["process"]["grid"], cp.model)
+            except Exception:
+                pristine_grid["g"] = None
             product = B.build_product(sc["product"], cp.model)
             if sc["variant"] == "fixed":
                 cfg = ConfigurationMultiLevel(initial_level=0, maximum_level=sc["max_level"], initial_mc_paths=sc["n"],
